@@ -51,7 +51,10 @@ type (
 	}
 	// ServerConnectionProvider provides the currently connected server connection for a player.
 	ServerConnectionProvider interface {
+		// ConnectedServer provides the server connection of the responder's player.
 		ConnectedServer() ServerConnection
+		// ConnectedServerOf provides the server connection of the given player, nil if it has none.
+		ConnectedServerOf(Player) ServerConnection
 	}
 	// ServerConnection represents a server connection for a player.
 	ServerConnection interface {
@@ -191,10 +194,13 @@ func (r *bungeeCordMessageResponder) prepareForwardMessage(in io.Reader) (forwar
 }
 
 func (r *bungeeCordMessageResponder) sendServerResponse(in []byte) {
+	sendResponseOn(r.ConnectedServer(), in)
+}
+
+func sendResponseOn(serverConn ServerConnection, in []byte) {
 	if len(in) == 0 {
 		return
 	}
-	serverConn := r.ConnectedServer()
 	if serverConn == nil {
 		return
 	}
@@ -204,7 +210,8 @@ func (r *bungeeCordMessageResponder) sendServerResponse(in []byte) {
 
 func (r *bungeeCordMessageResponder) processForwardToPlayer(in io.Reader) {
 	r.readPlayer(in, func(player Player) {
-		r.sendServerResponse(r.prepareForwardMessage(in))
+		// The payload goes to the server of the named player.
+		sendResponseOn(r.ConnectedServerOf(player), r.prepareForwardMessage(in))
 	})
 }
 
@@ -438,7 +445,7 @@ func (r *bungeeCordMessageResponder) processKickRaw(in io.Reader) {
 
 func (r *bungeeCordMessageResponder) processGetPlayerServer(in io.Reader) {
 	r.readPlayer(in, func(player Player) {
-		s := r.ConnectedServer()
+		s := r.ConnectedServerOf(player)
 		if s == nil {
 			return
 		}
